@@ -61,6 +61,10 @@ def numRings (n : Nat) : Nat :=
 def neighbours (i j : Int) : List (Int × Int) :=
   [(i + 1, j), (i, j + 1), (i - 1, j + 1), (i - 1, j), (i, j - 1), (i + 1, j - 1)]
 
+/-- `HexGrid.getNeighboringCellIndices(i, j, k)`: the six in-plane neighbours, each at the same axial index -/
+def neighbours3 (i j k : Int) : List (Int × Int × Int) :=
+  [(i + 1, j, k), (i, j + 1, k), (i - 1, j + 1, k), (i - 1, j, k), (i, j - 1, k), (i + 1, j - 1, k)]
+
 /-- Integer coefficients of a cell centre.
 flats up:   x = a·(√3/2)·p, y = b·(p/2)   with (a, b) = (i, i + 2j)
 corners up: x = a·(p/2),    y = b·(√3/2)·p with (a, b) = (i − j, i + j)
